@@ -503,7 +503,9 @@ func genC17Converge(t *rapid.T) C17Case {
 	c := C17Case{C17Setup: s, Ops: ops}
 	// overflow burst: a small fixed fraction of the cases (it costs a few
 	// tenths of a second)
-	isBurst := rapid.SampledFrom(c17BurstDie).Draw(t, "burst")
+	// (a residue of a wide draw: rapid's bias towards small values and
+	// range ends would otherwise multiply the fraction)
+	isBurst := rapid.IntRange(0, 1<<30).Draw(t, "burst")%16 == 11
 	k := rapid.IntRange(1, 3).Draw(t, "burst_ops")
 	if isBurst {
 		if k > len(ops) {
@@ -521,9 +523,6 @@ func genC17Converge(t *rapid.T) C17Case {
 	}
 	return c
 }
-
-// one case in sixteen
-var c17BurstDie = []bool{true, false, false, false, false, false, false, false, false, false, false, false, false, false, false, false}
 
 // ------------------------------------------------------------------ the world
 
@@ -1130,8 +1129,10 @@ func (r *c17Run) beginBurst() {
 	limit := 2*qlen + 8192
 	prev := c17Queued(fd)
 	for i := 0; i < limit; i++ {
-		c17Must(os.Mkdir(junk, 0o755))
-		c17Must(os.Remove(junk))
+		if os.Mkdir(junk, 0o755) != nil || os.Remove(junk) != nil {
+			r.label("overflow-flood-failed")
+			break
+		}
 		if i%256 == 255 {
 			n := c17Queued(fd)
 			if n == prev && n >= qlen*16 {
@@ -1489,8 +1490,23 @@ func runC17Converge(c C17Case) vrt.Verdict {
 		// truncating rewrite, may still be installed afterwards).
 		return vrt.Discardf("malformed case: the last valid content of a history that ends invalid must be new")
 	}
+	burstStart := len(c.Ops) // index of the first operation inside the overflow burst
+	if c.Burst != 0 {
+		if c.Burst < 1 || c.Burst > 3 || c.Burst > len(c.Ops) {
+			return vrt.Discardf("malformed case: burst %d", c.Burst)
+		}
+		burstStart = len(c.Ops) - c.Burst
+		for _, o := range c.Ops[burstStart:] {
+			if o.Settle {
+				return vrt.Discardf("malformed case: settle inside the burst")
+			}
+		}
+		if !valid[len(c.Ops)-1] && lastValidOp >= burstStart {
+			return vrt.Discardf("malformed case: the settle step before the trailing invalid content falls inside the burst")
+		}
+	}
 	return c17Guard(func() vrt.Verdict {
-		r, v := c17Start(c.C17Setup)
+		r, v := c17Start(c.C17Setup, c.Burst > 0)
 		if v != nil {
 			return *v
 		}
@@ -1518,6 +1534,9 @@ func runC17Converge(c C17Case) vrt.Verdict {
 			}
 		}
 		for i, o := range c.Ops {
+			if i == burstStart {
+				r.beginBurst()
+			}
 			te := r.w.apply(o)
 			if !finalValid && i > settleAfter && te {
 				tailEmpty = true
@@ -1534,6 +1553,9 @@ func runC17Converge(c C17Case) vrt.Verdict {
 			if i < len(c.Ops)-1 {
 				c17Sleep(o.PauseMS)
 			}
+		}
+		if r.gate != nil {
+			r.gate.open() // end of the burst: the watcher goes on
 		}
 		// harness self-check: the model and the disk agree
 		if onDisk, err := os.ReadFile(r.w.visible); err != nil || string(onDisk) != string(r.w.cur.bytes) {
@@ -1634,6 +1656,10 @@ func TestC17Converge(t *testing.T) {
 			"Oracle by construction: View() must become defaults overlaid with the fields of the final document; when the final content is invalid the harness first waits for the last valid content to be installed " +
 			"(before the trailing invalid operations) and then requires a *file.DecoderErr delivered through OnWatchedError while that config is still installed. " +
 			"Non-convergence at the 10 s deadline is a violation only when three goroutine dumps 300 ms apart all show watchLoop in its select, the fsnotify reader in IO wait and the monitor in its select; otherwise the case is discarded as inconclusive. " +
+			"A small fixed fraction of the cases (about one in sixteen) ends with an overflow burst around its last 1..3 operations: the harness waits until no notification is pending (FIONREAD on the watcher's inotify descriptor is 0, reader in IO wait, watch loop in its select), " +
+			"parks the watcher inside a decode (gating decoder around the real one, re-read triggered through WithSignalChannel), creates and removes a directory in the watched directory until the kernel queue stops growing " +
+			"(fs.inotify.max_queued_events read at run time; skipped with a label when unreadable or above 131072), applies the operations (their notifications are dropped, only the overflow marker remains) and opens the gate; " +
+			"the same oracle applies: the watcher must treat the overflow as 'anything may have changed' and re-read. A precondition that does not come true only skips the burst (label overflow-skipped:*), it never fails the case. " +
 			"Every case ends with cancel: WG.Wait() returns, no goroutine with a sources/file or fsnotify frame, inotify descriptors back to the count before Config. " +
 			"non-trivial = at least 3 operations of at least 2 kinds with at least one zero pause; distinct = distinct histories",
 		Assumptions: []string{
@@ -1643,6 +1669,7 @@ func TestC17Converge(t *testing.T) {
 			"the Kubernetes swap is modelled as mkdir ..ts-N, write file, symlink <link>_tmp, rename over <link>, optionally RemoveAll of the previous directory; operations on the content act on the regular file behind the symlinks",
 			"the plain-symlink layout is an extension of the property's list (an atomic rename-over of the watched path itself)",
 			"inotify is available; hitting the per-user inotify instance limit discards the case",
+			"overflow burst: alternating mkdir/rmdir events of one name are not coalesced by inotify; a queue that holds at least max_queued_events*16 bytes and does not grow over 512 further events is full (label overflow-seen); fsnotify reports the marker as an error on Watcher.Errors",
 		},
 		Gen: genC17Converge, Run: runC17Converge,
 	})
@@ -1723,7 +1750,7 @@ func runC17Ident(c C17IdentCase) vrt.Verdict {
 		return vrt.Discardf("malformed case: change must be atomic with new content")
 	}
 	return c17Guard(func() vrt.Verdict {
-		r, v := c17Start(c.C17Setup)
+		r, v := c17Start(c.C17Setup, false)
 		if v != nil {
 			return *v
 		}
@@ -1833,7 +1860,7 @@ func runC17Release(c C17ReleaseCase) vrt.Verdict {
 		return vrt.Discardf("malformed case: %v", err)
 	}
 	return c17Guard(func() vrt.Verdict {
-		r, v := c17Start(c.C17Setup)
+		r, v := c17Start(c.C17Setup, false)
 		if v != nil {
 			return *v
 		}
